@@ -995,6 +995,9 @@ class Executor:
                 r = other is None
             elif isinstance(a, bool) or isinstance(b, bool):
                 r = a is b
+            elif any(isinstance(x, tuple) and len(x) == 2 and x[0] == 'global' for x in (a, b)) \
+                    and any(isinstance(x, (SArr, SSeq, SObj)) or is_num(x) for x in (a, b)):
+                r = False       # a module-level singleton (np.ma.nomask) is not a data value
             else:
                 raise Unsupported('identity comparison')
             return (not r) if isinstance(op, ast.IsNot) else r
